@@ -101,8 +101,8 @@ FIRST_MISS = {
     ('C03', 'm14'): "NOT CAUGHT (final check exits 0): the change is in the C adapter of the feeder interface (api/c/nl-feeder-c-impl.h); the C03 writer party is a C++ feeder only - a C callback-table feeder party was not built in the time left",
     ('C03', 'm15'): "NOT CAUGHT by the C03 check (final check exits 0): the change is in NLFeeder_Easy (the feeder behind NLModel); NLModel is the writer party of C08, whose check reports it (real-valued variable suffix through the permutation), not of C03",
     ('C04', 'm15'): "NOT CAUGHT (final check exits 0): a functional constraint shared by two original constraints stays linked to the first user only; the oracle matches images of linear rows by content and has no independent notion of which delivered rows belong to a nonlinear constraint",
-    ('C05', 'm14'): "NOT CAUGHT (final check exits 0): the change is in SolutionWriterImpl (the driver-side entry that builds the solution object); the C05 writer party enters at mp::WriteSolFile with its own solution object. The whole-driver checks (C04: DUAL_MISSING with a dual-only answer) exercise that entry",
-    ('C05', 'm15'): "NOT CAUGHT (final check exits 0): same entry as C05/m14 (Problem::ReportSuffix with a history on one mp::Problem)",
+    ('C05', 'm14'): "the writer party entered at mp::WriteSolFile with its own solution object; a second writer party now enters where a driver does - suffix values reported to an mp::Problem, vectors handed to mp::SolutionWriterImpl::HandleSolution as pointers (20 % of the scenarios that fit that interface)",
+    ('C05', 'm15'): "same new writer party; in 40 % of its runs the same mp::Problem has already been given another report for the same suffixes (Problem::ReportSuffix with a history)",
     ('C09', 'm15'): "NOT CAUGHT (final check exits 0): a supported model is refused as 'not implemented' with a well-formed failure .sol; telling a true from a spurious 'unsupported' diagnosis needs operator-support knowledge per context that the oracle does not have (a probe counts refusals of models without an unsupported construct: 914 of 48 000 on the pinned tree, all legitimate as far as inspected)",
 }
 
